@@ -517,6 +517,10 @@ def run(prog, rep, tier):
     rep.floor('QMAP-roles', 9)
     rep.floor('FLAG-L-reset', 12)
     rep.assumptions += ['bijectivity of q_map/_perm over all leg tuples is NOT decided']
+    from ..flow import check_dead_computations
+    rep.rule('VALUE-dead', 'no result of a call is bound to a local that is never read (reaching '
+             'definitions)')
+    check_dead_computations(prog, rep, ['tenpy/linalg/charges.py'])
     return rep.finish(
         level='other',
         explanation='Fusion rule, direction algebra (all sign cases), q_map column roles (%d '
